@@ -1,7 +1,7 @@
 """C05 — a run always terminates, stops triggering on time, and leaves nothing running."""
 import re
 ID = "C05"
-PROPS = ["F1Verif.Props.C05", "F1Verif.Props.C05Time", "F1Verif.Props.FactsC05", "F1Verif.Props.RefineC19R", "F1Verif.Props.RefineC05S", "F1Verif.Props.RefineC05R", "F1Verif.Props.RefineC05U", "F1Verif.Props.RefineC18L"]
+PROPS = ["F1Verif.Props.C05", "F1Verif.Props.C05Time", "F1Verif.Props.FactsC05", "F1Verif.Props.RefineC19R", "F1Verif.Props.RefineC05S", "F1Verif.Props.RefineC05R", "F1Verif.Props.RefineC05U", "F1Verif.Props.RefineC18L", "F1Verif.Props.RefineC08X"]
 ALSO = ["F1Verif.Props.C18", "F1Verif.Props.Pool"]
 RULE = ("engine C: whole runs of the real Run.Do over (mode: constant, staged, ramp, gaussian, users, file) x (ending: "
         "max-duration, trigger duration, max-iterations, cancel at a seeded instant, setup failure, completion timeout with "
